@@ -293,12 +293,20 @@ func spareCap(b []byte) []byte {
 		buf[i] = 0xA5
 	}
 	copy(buf, b)
+	spareBufs[&buf[0]] = true
 	return buf[:len(b)]
 }
 
-// spareIntact reports whether the spare capacity of a spareCap slice still holds the pattern.
+// spareBufs: the buffers handed out by spareCap (other slices have arbitrary spare capacity).
+var spareBufs = map[*byte]bool{}
+
+// spareIntact reports whether the spare capacity of a spareCap slice still
+// holds the pattern (true for every slice not made by spareCap).
 func spareIntact(b []byte) bool {
 	full := b[:cap(b)]
+	if len(full) == 0 || !spareBufs[&full[0]] {
+		return true
+	}
 	for _, x := range full[len(b):] {
 		if x != 0xA5 {
 			return false
